@@ -33,6 +33,18 @@ type OptPollTimeout time.Duration
 // ErrTimeout is what a read returns when the poll timeout expired (gopacket/afpacket.ErrTimeout).
 var ErrTimeout = errors.New("packet poll timeout expired")
 
+// ErrPoll is what a read returns when poll(2) reports an error condition on the socket, e.g. POLLERR
+// after the interface went down (gopacket/afpacket.ErrPoll); the condition persists until it is cleared.
+var ErrPoll = errors.New("packet poll failed")
+
+const (
+	DefaultFrameSize    = 4096
+	DefaultBlockSize    = DefaultFrameSize * 128
+	DefaultNumBlocks    = 128
+	DefaultBlockTimeout = 64 * time.Millisecond
+	DefaultPollTimeout  = -1 * time.Millisecond
+)
+
 type Frame struct {
 	T      int64 // virtual time of the write
 	Step   int
@@ -62,6 +74,7 @@ type TPacket struct {
 type rxFrame struct {
 	data    []byte
 	wirelen int
+	pollErr bool // not a frame: wakes a waiting read with ErrPoll (the link went down)
 }
 
 type Take struct {
@@ -113,6 +126,12 @@ type World struct {
 	// privilege. KernelSame counts agreeing verdicts, KernelDiff lists disagreements, KernelErr is
 	// set when the comparison could not be made (then nothing is counted).
 	KernelBPF  bool
+	// LinkDown: while set, every read on a packet socket fails at once with ErrPoll (SetLinkDown also
+	// wakes the reads that are waiting)
+	LinkDown bool
+	// StdoutErr, when set, decides whether the n-th write (0-based) to the program's standard output
+	// fails (nothing of it is written then), e.g. ENOSPC on a full disk or EPIPE
+	StdoutErr func(n int, p []byte) error
 	// SlowStdout, when set, turns the program's standard output into a pipe with a slow reader: the
 	// n-th write (0-based) of p delivers p[:split], then blocks for d of virtual time, then delivers
 	// the rest. What has been delivered when the program exits is all the reader ever gets.
@@ -262,6 +281,13 @@ func (t *TPacket) ZeroCopyReadPacketData() ([]byte, gopacket.CaptureInfo, error)
 	if t.isClosed {
 		panic(crashAfterClose)
 	}
+	if W.LinkDown {
+		var down bool
+		vs.Visible("wire.poll", func() { down = W.LinkDown })
+		if down {
+			return nil, gopacket.CaptureInfo{}, ErrPoll
+		}
+	}
 	t.inRead++
 	defer func() { t.inRead-- }()
 	r := t.rx.RecvCase()
@@ -277,10 +303,36 @@ func (t *TPacket) ZeroCopyReadPacketData() ([]byte, gopacket.CaptureInfo, error)
 	if t.isClosed {
 		panic(crashInFlight)
 	}
+	if r.V.pollErr {
+		return nil, gopacket.CaptureInfo{}, ErrPoll
+	}
 	d := r.V.data
 	W.Reads = append(W.Reads, Read{T: vs.VNow(), Thread: vs.CurThread(), Sock: t.id, Data: append([]byte{}, d...)})
 	// like afpacket: Length is the length on the wire, CaptureLength what the filter let through
 	return d, gopacket.CaptureInfo{Timestamp: vs.Now(), CaptureLength: len(d), Length: r.V.wirelen}, nil
+}
+
+// ReadPacketDataTo copies the frame into data (as much as fits), as gopacket/afpacket does.
+func (t *TPacket) ReadPacketDataTo(data []byte) (gopacket.CaptureInfo, error) {
+	d, ci, err := t.ZeroCopyReadPacketData()
+	if err != nil {
+		return ci, err
+	}
+	ci.CaptureLength = copy(data, d)
+	return ci, nil
+}
+
+// SetLinkDown changes the state of the link; going down wakes every waiting read with ErrPoll.
+// Non-blocking: usable from events and environment threads.
+func SetLinkDown(down bool) {
+	W.LinkDown = down
+	if down {
+		for _, s := range W.Socks {
+			if !s.isClosed && s.inRead > 0 {
+				s.rx.Push(rxFrame{pollErr: true})
+			}
+		}
+	}
 }
 
 // ReadPacketData is the copying form.
@@ -363,7 +415,7 @@ func Inject(frame []byte) int {
 		}
 		d := make([]byte, keep)
 		copy(d, frame)
-		if s.rx.Push(rxFrame{d, len(frame)}) && !s.isClosed {
+		if s.rx.Push(rxFrame{data: d, wirelen: len(frame)}) && !s.isClosed {
 			s.Delivered++
 			n++
 		}
@@ -464,7 +516,7 @@ func NewRateLimit(rate int, opts ...ratelimit.Option) ratelimit.Limiter {
 
 // Stdout is what the program writes its records to (os.Stdout in the product code).
 func Stdout() io.Writer {
-	if W != nil && W.SlowStdout != nil {
+	if W != nil && (W.SlowStdout != nil || W.StdoutErr != nil) {
 		return vStdout{}
 	}
 	return os.Stdout
@@ -475,8 +527,19 @@ type vStdout struct{}
 func (vStdout) Write(p []byte) (n int, err error) {
 	split, d := len(p), time.Duration(0)
 	vs.Visible("stdout.write", func() {
-		split, d = W.SlowStdout(W.stdoutN, p)
+		nth := W.stdoutN
 		W.stdoutN++
+		if W.StdoutErr != nil {
+			if err = W.StdoutErr(nth, p); err != nil {
+				err = &os.PathError{Op: "write", Path: "/dev/stdout", Err: err}
+				return
+			}
+		}
+		if W.SlowStdout == nil {
+			n, err = os.Stdout.Write(p)
+			return
+		}
+		split, d = W.SlowStdout(nth, p)
 		if split > len(p) {
 			split = len(p)
 		}
